@@ -254,8 +254,8 @@ func run(c *mon.Case) {
 
 func main() {
 	mon.Main(mon.Spec{
-		Prop: "C16",
-		Rule: "case = base memory (Bytes / Sparse with constants / Sparse with symbolic values / itself an Overlay(Bytes,Sparse) written through its own Store) + a quarter of the upper layers already holding values + history of 30 stores/loads/missing queries on an Overlay whose upper layer is a Sparse memory, over a 48-byte window with small writes so that reads see several gaps in both layers; non-trivial = history with a successful load combining >=2 stored values or both layers",
+		Prop:        "C16",
+		Rule:        "case = base memory (Bytes / Sparse with constants / Sparse with symbolic values / itself an Overlay(Bytes,Sparse) written through its own Store) + a quarter of the upper layers already holding values + history of 30 stores/loads/missing queries on an Overlay whose upper layer is a Sparse memory, over a 48-byte window with small writes so that reads see several gaps in both layers; non-trivial = history with a successful load combining >=2 stored values or both layers",
 		Explanation: "oracle: two shadow byte maps (upper over base); load ok iff every byte is in some layer, value = upper byte if written else base byte on 5 valuations; Missing = bytes in neither layer; Blocks = union; at the end the base memory's Blocks and every byte are re-read and compared with the base shadow (base never modified)",
 		Assumptions: []string{"refir reference evaluator", "upper layer is memory.Sparse (as in cmd/mltwist)"},
 		Cases: func(t string) int {
